@@ -131,6 +131,7 @@ func Try(a app.App, ctx app.IOContext) (err error) {
 		}
 		// run fail (if required)
 		if deps.FailBody != "" && catchErr != nil {
+			verifPoint("try.handler", "fail")
 			if err = deps.Runner.Run(pipservices.Pip{
 				Context: pipservices.PipContext{
 					In:    gio.NewInput(strings.NewReader(deps.FailBody)),
@@ -152,6 +153,7 @@ func Try(a app.App, ctx app.IOContext) (err error) {
 		}
 		// run success (if required)
 		if deps.SuccessBody != "" && catchErr == nil {
+			verifPoint("try.handler", "success")
 			if err = deps.Runner.Run(pipservices.Pip{
 				Context: pipservices.PipContext{
 					In:    gio.NewInput(strings.NewReader(deps.SuccessBody)),
